@@ -251,7 +251,7 @@ def replay(case):
 
 
 def shards(tier):
-    n = 100 if tier == 'quick' else 6000
+    n = 500 if tier == 'quick' else 8000
     return [('exhaustive', 0)] + [('random', n)] * 16
 
 
